@@ -170,7 +170,8 @@ def table(src_root):
                 elif isinstance(order_expr, ast.Name) and order_expr.id in phases:
                     phase, phase_src = phases[order_expr.id], order_expr.id
                 else:
-                    phase, phase_src = _int_const(order_expr), 'literal'
+                    phase = _int_const(order_expr)
+                    phase_src = 'literal' if phase is not None else 'NOT UNDERSTOOD: ' + ast.unparse(order_expr).replace('\n', ' ')
                 rows.append({
                     'file': stem, 'func': f.name, 'idx': idx, 'line': c.lineno, 'end_line': c.end_lineno,
                     'kind': KNOWN_SITES.get((stem, f.name, idx), 'unknown'),
@@ -212,7 +213,7 @@ def generate(src_root):
     lines.append('end Pyr.ConfigOrder.Gen')
     summary.clear()
     summary.update({'rows': len(rows), 'unknown_kinds': [(r['file'], r['func'], r['idx']) for r in rows if r['kind'] == 'unknown'],
-                    'unknown_phases': [(r['file'], r['func'], r['idx']) for r in rows if r['phase'] is None],
+                    'unknown_phases': [(r['file'], r['func'], r['idx'], r['phase_src']) for r in rows if r['phase'] is None],
                     'unknown_discs': [(r['file'], r['func'], r['idx']) for r in rows if r['disc'] == 'unknown'],
                     'phases': phases, 'default_order': dflt})
     return {'PyramidModel/Gen/C08Phases.lean': '\n'.join(lines) + '\n'}
